@@ -37,6 +37,7 @@ ops
 
 from __future__ import annotations
 
+import re as _re
 import typing as t
 
 Term = tuple
@@ -628,7 +629,21 @@ def ceval(term: Term, env: dict):
                     return getattr(recv, f[2])(*args, **kw)
                 except (TypeError, ValueError) as e:
                     raise Undecidable(str(e)) from None
+        if f[0] == "attr" and f[2] in ("search", "match", "fullmatch") and len(term[2]) == 1 and not term[3]:
+            # a compiled pattern the caller has put into `env` (a constant of the source, compiled by the standard library)
+            recv = ceval(f[1], env)
+            if isinstance(recv, _re.Pattern):
+                subject = ceval(term[2][0], env)
+                if isinstance(subject, str) == isinstance(recv.pattern, str):
+                    return getattr(recv, f[2])(subject) is not None
         rn = refname(f)
+        if rn in ("re.search", "re.match", "re.fullmatch") and len(term[2]) == 2 and not term[3]:
+            pat, subject = ceval(term[2][0], env), ceval(term[2][1], env)
+            if isinstance(pat, str) and isinstance(subject, str):
+                try:
+                    return getattr(_re, rn[3:])(pat, subject) is not None
+                except _re.error as e:
+                    raise Undecidable(str(e)) from None
         if rn in _PURE_BUILTINS and not term[3]:
             args = [ceval(a, env) for a in term[2]]
             if rn in ("builtins.any", "builtins.all") and not (len(args) == 1 and isinstance(args[0], (tuple, list))):
@@ -664,6 +679,13 @@ def enclosing_conditions(root: Term, target: Term) -> list[list]:
                 go(it, conds)
             for c in tm[4]:
                 go(c, conds)
+            return
+        if tm[0] == "boolop":
+            # `a or b`: b is evaluated where a was falsy; `a and b`: where a was truthy
+            seen: list = []
+            for operand in tm[2]:
+                go(operand, conds + [(x, tm[1] == "and") for x in seen])
+                seen.append(operand)
             return
         for ch in children(tm):
             go(ch, conds)
